@@ -76,8 +76,26 @@ package keeper
 // (whenever that is a round at all, i.e. n > MaxSizePrices) - also round 1.
 //@   ensures[C12.aptr.retain] result && defined(res_GetParamsMaxSizePrices_0) && old(nextRound(ctx, tokenID)) > res_GetParamsMaxSizePrices_0 ==>
 //@        roundRaw(ctx, tokenID, old(nextRound(ctx, tokenID)) - res_GetParamsMaxSizePrices_0) == nil
+// ... whatever number was configured when the previous rounds were appended: the stored rounds of a token are always
+// the last MaxSizePrices ones, also after the parameter has been lowered. (The rounds stored on entry form an interval
+// that ends at the round before the next one - C12: no gaps -, ghost first_round_kept is its lower end.)
+//@ define aptrN() = old(nextRound(ctx, tokenID))
+//@ define aptrM() = res_GetParamsMaxSizePrices_0
+//@   requires 1 <= first_round_kept && forall(r, 1, nextRound(ctx, tokenID), (roundRaw(ctx, tokenID, r) == nil) == (r < first_round_kept))
+//@   ensures[C12.aptr.window] result && defined(res_GetParamsMaxSizePrices_0) && aptrM() >= 1 ==>
+//@        forall(r, 1, aptrN() - aptrM() + 1, roundRaw(ctx, tokenID, r) == nil)
+// loop #1 drops the expired round and what is left below it
 //@ loop #1
+//@   invariant 0 <= expiredRoundID && expiredRoundID <= aptrN() - aptrM() && aptrN() > aptrM() && aptrM() >= 0
+//@   invariant nextRoundRaw(ctx, tokenID) == old(nextRoundRaw(ctx, tokenID))
+//@   invariant[C12.aptr.window] forall(r, expiredRoundID + 1, aptrN() - aptrM() + 1, roundRaw(ctx, tokenID, r) == nil)
+//@   invariant forall(r, 1, expiredRoundID + 1, roundRaw(ctx, tokenID, r) == old(roundRaw(ctx, tokenID, r)))
+//@   invariant roundRaw(ctx, tokenID, priceTR.RoundID) != nil &&
+//@        unm["x/oracle/types.PriceTimeRound"](roundRaw(ctx, tokenID, priceTR.RoundID)) == norm["x/oracle/types.PriceTimeRound"](priceTR)
+//@ loop #2
 //@   invariant nextRound(ctx, tokenID) == old(nextRound(ctx, tokenID)) + 1
+//@   invariant[C12.aptr.window] aptrM() >= 1 ==>
+//@        forall(r, 1, aptrN() - aptrM() + 1, roundRaw(ctx, tokenID, r) == nil)
 //@   invariant[C12.aptr.retain] old(nextRound(ctx, tokenID)) > res_GetParamsMaxSizePrices_0 ==>
 //@        roundRaw(ctx, tokenID, old(nextRound(ctx, tokenID)) - res_GetParamsMaxSizePrices_0) == nil
 //@   invariant roundRaw(ctx, tokenID, priceTR.RoundID) != nil &&
